@@ -143,6 +143,11 @@ def readListBegin (e : Endian) : Prog (TType × Nat) :=
 def readMapBegin (e : Endian) : Prog (TType × TType × Nat) :=
   readTType.bind fun kt => readTType.bind fun vt => (readI e 4).bind fun n => .ret (kt, vt, Binary.asUsize n)
 
+/-- `VERSION_1` (binary.rs) / `VERSION_LE` (binary_le.rs). -/
+def version : Endian → Nat
+  | .be => 0x80010000
+  | .le => 0x88880000
+
 /-- `read_message_begin` (strict only). -/
 def readMessageBegin (e : Endian) : Prog (Bytes × Nat × Int) :=
   (readI e 4).bind fun size =>
@@ -151,7 +156,7 @@ def readMessageBegin (e : Endian) : Prog (Bytes × Nat × Int) :=
       let u := toU 4 size
       let ty := u % 16
       if ty < 1 ∨ 4 < ty then .fail .invalid
-      else if u / 65536 * 65536 ≠ (match e with | .be => 0x80010000 | .le => 0x88880000) then .fail .badVersion
+      else if u / 65536 * 65536 ≠ version e then .fail .badVersion
       else (readBytes e).bind fun name => (readI e 4).bind fun seq => .ret (name, ty, seq)
 
 -- the dynamic reading interpreter over `TAsyncInputProtocol`
